@@ -104,11 +104,15 @@ func runC06(s *Sim) {
 				}
 				rec.Op = op
 				op.Meta = rec
-				switch t.Choose("ctx", 6) {
+				switch t.Choose("ctx", 7) {
 				case 0:
 					op.CtxKind = "cancel"
 				case 1:
 					op.CtxKind, op.Timeout = "deadline", Pick(t, "to", 100*time.Millisecond, time.Second, 3*time.Second)
+				case 2:
+					// the caller gives up at an arbitrary instant, e.g. while its response is being dispatched
+					op.CtxKind = "cancel"
+					op.CancelAtYield = 1 + t.Choose("cancel-yield-k", 80)
 				}
 				recs = append(recs, rec)
 				s.Start(ti, op)
